@@ -194,7 +194,7 @@ def register_subtree(R):
     from contracts.C04 import depth
     from contracts.common import COLS, assume_wf, col, nof, sym_tree
     from pyvc.traverse_rule import Rule
-    from pyvc.values import Obj, PDict, PList
+    from pyvc.values import Obj, PDict, PList, fresh
 
     I = z3.IntSort()
     sel = z3.Select
@@ -229,7 +229,7 @@ def register_subtree(R):
             t = wf_tree(S)
             n = nof(t)
             sid, spid = S.arr("int", n=S.int("sn"), name="sub_id"), S.arr("int", name="sub_pid")
-            out = None if kind == "none" else PList([7, 8])
+            out = None if kind == "none" else (PList([7, 8]) if kind == "list" else S.pdict("int", name="out_mapping"))
             return dict(swc_like=t, sub=(sid, spid), out_mapping=out)
 
         return f
@@ -242,6 +242,32 @@ def register_subtree(R):
     def topo_call(E):
         calls = [kw for nm, kw in E.call_log if nm == "to_sub_topology"]
         return calls[0] if len(calls) == 1 else None
+
+    def mapping_reported(om, mapping):
+        """the caller's out_mapping (None / list / dict) holds exactly new id -> old id"""
+        m = mapping.nz()
+        k = z3.Int(fresh_name("k"))
+        if om is None:
+            return True
+        if isinstance(om, PDict):
+            if om.items is not None:
+                return False
+            return z3.ForAll([k], z3.And(sel(om.dom, k) == z3.And(k >= 0, k < m), z3.Implies(z3.And(k >= 0, k < m), sel(om.val, k) == mapping.get(k).z)))
+        if not isinstance(om, PList) or om.items is not None:
+            return False
+        return z3.And(zint(om.n) == m, z3.ForAll([k], z3.Implies(z3.And(k >= 0, k < m), sel(om.cols[0], k) == mapping.get(k).z)))
+
+    def dict_fill_inv(E, v, o):
+        """loop of the dict form: keys 0..k-1 filled with the old ids, nothing else in the dict"""
+        om, mapping = v["out_mapping"], v["mapping"]
+        if not isinstance(om, PDict) or om.items is not None:
+            return False
+        kk = to_z3(v["_k0"], "int")
+        j = z3.Int(fresh_name("j"))
+        return z3.ForAll([j], z3.And(sel(om.dom, j) == z3.And(j >= 0, j < kk), z3.Implies(z3.And(j >= 0, j < kk), sel(om.val, j) == mapping.get(j).z)))
+
+    # the loop variable `new_id` shadows the array of that name (already stored in ndata): at the loop head it is an int
+    DICT_LOOP = {0: dict(invariant=[("keys-so-far-map-to-the-old-ids", dict_fill_inv)], rebind={"new_id": lambda eng, cur: fresh("int", "new_id")})}
 
     def impl_post(which):
         def f(E, v, o):
@@ -272,12 +298,7 @@ def register_subtree(R):
             if which == "source-and-names-kept":
                 return source is t.fields["source"] or source == t.fields["source"]
             if which == "mapping-reported":
-                om = v["out_mapping"]
-                if om is None:
-                    return True
-                if om.items is not None:
-                    return False
-                return z3.And(zint(om.n) == m, z3.ForAll([k], z3.Implies(z3.And(k >= 0, k < m), z3.Select(om.cols[0], k) == mapping.get(k).z)))
+                return mapping_reported(v["out_mapping"], mapping)
             raise KeyError(which)
 
         return f
@@ -292,10 +313,11 @@ def register_subtree(R):
         return (m, nd, t.fields["source"], t.fields["names"])
 
     R.add(f"{IMPL}:to_subtree_impl", prop="C06",
-          variants={"no-mapping-requested": impl_setup("none"), "mapping-into-a-list": impl_setup("list")},
+          variants={"no-mapping-requested": impl_setup("none"), "mapping-into-a-list": impl_setup("list"), "mapping-into-a-dict": impl_setup("dict")},
           requires=[sub_pre("same-length"), sub_pre("kept-ids-pairwise-distinct"), sub_pre("kept-parents-are-kept-entries"), ("kept-ids-are-nodes-of-the-tree", impl_pre_inrange)],
           ensures=[(nm, impl_post(nm)) for nm in IMPL_POSTS],
-          notes="the dict form of out_mapping is covered by the bounded stand-in only")
+          loops=DICT_LOOP,
+          notes="out_mapping: None, a list or a dict (any previous content is discarded)")
 
     # ------------------------------------------------------------------ to_subtree
     def raw_tree(S, name="t"):
@@ -320,7 +342,7 @@ def register_subtree(R):
 
     WF = ["ids-are-positions", "node-0-is-the-root-and-parents-exist", "every-node-reaches-the-root"]
 
-    def ts_setup(kind):
+    def ts_setup(kind, out_kind="none"):
         def f(S):
             t = raw_tree(S)
             if kind == "list":
@@ -331,7 +353,8 @@ def register_subtree(R):
             i = z3.Int(fresh_name("i"))
             # ghost definition: a kept entry's parent entry is the parent node (ids are positions)
             S.assume(z3.ForAll([i], PPOS(i) == sel(col(t, "pid").arr, i)))
-            return dict(swc_like=t, removals=rem, out_mapping=None)
+            out = None if out_kind == "none" else (PList([7, 8]) if out_kind == "list" else S.pdict("int", name="out_mapping"))  # previous content is discarded
+            return dict(swc_like=t, removals=rem, out_mapping=out)
 
         return f
 
@@ -435,15 +458,20 @@ def register_subtree(R):
     def ts_post(which):
         def f(E, v, o):
             res, t = v["result"], o["swc_like"]
+            if which == "mapping-reported":
+                gh = sub_ghost(E, res)
+                return False if gh is None else mapping_reported(v["out_mapping"], gh[0])
             return subtree_clause(E, which, res, t, sub_ghost(E, res), seed=rem_member(o["removals"]))
 
         return f
 
     TS_POSTS = ["removal-closure-is-removed-or-below-a-removed-node", "survivors-are-exactly-the-nodes-outside-the-closure-in-order", "survivors-keep-every-attribute",
-                "ids-are-positions-and-parent-relation-kept", "result-shares-no-storage-with-the-input"]
-    R.add(f"{TU}:to_subtree", prop="C06", variants={"removals in a list": ts_setup("list"), "removals in a set": ts_setup("set")},
+                "ids-are-positions-and-parent-relation-kept", "result-shares-no-storage-with-the-input", "mapping-reported"]
+    R.add(f"{TU}:to_subtree", prop="C06",
+          variants={"removals in a list": ts_setup("list"), "removals in a set": ts_setup("set"),
+                    "removals in a list, mapping into a list": ts_setup("list", "list"), "removals in a list, mapping into a dict": ts_setup("list", "dict")},
           requires=[wf_clause(w) for w in WF] + [("removals-are-node-ids", ts_pre_removals)],
-          returns=ts_result,
+          returns=ts_result, modifies=["out_mapping"], inlined_loops={f"{IMPL}:to_subtree_impl": DICT_LOOP},
           ensures=[(nm, ts_post(nm)) for nm in TS_POSTS],
           loops={0: dict(invariant=[("marks-so-far", ts_inv("marks-so-far"))])},
           notes="the input tree is frozen (any store into it is a failed frame obligation); removals may repeat and come in any order; "
@@ -455,7 +483,7 @@ def register_subtree(R):
             t = raw_tree(S)
             r = S.int("start")
             G = Obj(GhostList, dict(at=SArr(z3.K(I, z3.IntVal(-1)), nof(t), "int", name="at")))  # ghost: at[x] = position of node x in `ids`
-            out = None if kind == "none" else PList([7, 8])
+            out = None if kind == "none" else (PList([7, 8]) if kind == "list" else S.pdict("int", name="out_mapping"))
             return dict(swc_like=t, n=r, out_mapping=out, G6=G)
 
         return f
@@ -548,13 +576,9 @@ def register_subtree(R):
                 out.append(z3.And(a.nz() == m, z3.ForAll([k], z3.Implies(z3.And(k >= 0, k < m), a.get(k).z == src.get(mapping.get(k).z).z))))
             return z3.And(ndata.items["id"].nz() == m, z3.ForAll([k], z3.Implies(z3.And(k >= 0, k < m), ndata.items["id"].get(k).z == k)), *out)
         if which == "mapping-reported":
-            om = out_mapping
-            if om is None:
-                return True
-            if not isinstance(om, PList):
+            if isinstance(out_mapping, PList) and out_mapping.items is not None:
                 return False
-            A, ln = list_view(om)
-            return z3.And(ln == m, z3.ForAll([k], z3.Implies(z3.And(k >= 0, k < m), sel(A, k) == mapping.get(k).z)))
+            return mapping_reported(out_mapping, mapping)
         raise KeyError(which)
 
     def gs_post(which):
@@ -567,9 +591,9 @@ def register_subtree(R):
                 "start-node-is-the-new-root-without-parent", "parents-precede-children-and-the-parent-relation-is-kept",
                 "survivors-keep-every-attribute-in-fresh-storage", "mapping-reported"]
     R.add(f"{IMPL}:get_subtree_impl", prop="C06",
-          variants={"no-mapping-requested": gs_setup("none"), "mapping-into-a-list": gs_setup("list")},
+          variants={"no-mapping-requested": gs_setup("none"), "mapping-into-a-list": gs_setup("list"), "mapping-into-a-dict": gs_setup("dict")},
           requires=[wf_clause(w) for w in WF] + [("start-node-in-range", gs_start_in_range)],
-          returns=gs_result, modifies=["out_mapping"],
+          returns=gs_result, modifies=["out_mapping"], inlined_loops={f"{IMPL}:to_subtree_impl": DICT_LOOP},
           ensures=[(nm, gs_post(nm)) for nm in GS_POSTS],
           options=dict(traverse_rule=Rule(gs_J, modifies=[("ids", "int"), "G6"], enter_kind="oref", ghost_enter=gs_ghost_enter),
                        asserts_after={"sub_ids": [("parent-entry-choice-function", gs_define_ppos)]}),
@@ -584,7 +608,7 @@ def register_subtree(R):
     def gw_setup(form, kind):
         def f(S):
             t = raw_tree(S)
-            out = None if kind == "none" else S.plist("int", name="out_mapping")
+            out = None if kind == "none" else (S.plist("int", name="out_mapping") if kind == "list" else S.pdict("int", name="out_mapping"))
             if form == "function":
                 return dict(swc_like=t, n=S.int("start"), out_mapping=out)
             return dict(self=node_obj(S, t), out_mapping=out)
@@ -630,7 +654,7 @@ def register_subtree(R):
     for form, key, tn in (("function", f"{TU}:get_subtree", "swc_like"), ("method", f"{TREE}:Tree.Node.subtree", None)):
         getter = (lambda v: v["swc_like"]) if form == "function" else (lambda v: v["self"].fields["attach"])
         R.add(key, prop="C06",
-              variants={"no-mapping-requested": gw_setup(form, "none"), "mapping-into-a-list": gw_setup(form, "list")},
+              variants={"no-mapping-requested": gw_setup(form, "none"), "mapping-into-a-list": gw_setup(form, "list"), "mapping-into-a-dict": gw_setup(form, "dict")},
               requires=[wf_clause(w, getter) for w in WF] + [("start-node-in-range", gw_pre(form))],
               ensures=[(nm, gw_post(form, nm)) for nm in GW_POSTS],
               notes="thin wrapper: get_subtree_impl through its proved contract, then the Tree constructor (interpreted from source)")
